@@ -27,7 +27,8 @@ RULE = (
 )
 ASSUMPTIONS = [
     "the Array operations used as lifting oracle are judged separately by C02/C07/C10",
-    "ndarray/number on the LEFT of a Vector (other than k*v, k/v) is not decided",
+    "a numpy ndarray or a pint Quantity on the LEFT of a Vector dispatches to numpy/pint first and is not decided "
+    "(a Python number or an Array on the left is: reflected operators)",
 ]
 
 BIN = {"add": operator.add, "sub": operator.sub, "mul": operator.mul, "div": operator.truediv,
@@ -50,7 +51,8 @@ KINDS = ["vector", "vector", "array", "float", "int", "ndarray", "quantity"]
 def plan(tier):
     return {"shards": 16, "timeout": 900 if tier == "quick" else 4 * 3600,
             "required_monitors": ["lift-oracle", "nvec-mismatch-must-raise", "norm-oracle", "dot-oracle",
-                                  "cross-oracle", "product-laws", "stateful-reads"]}
+                                  "cross-oracle", "product-laws", "stateful-reads"],
+            "required_tags": ["other-operand-on-the-left"]}
 
 
 def cases(ctx):
@@ -120,7 +122,18 @@ def run_case(case, ctx, res):
     fn(osy, rng, res, sig, v, c1, u1, c2, u2, dt1, dt2, nvec, shape)
 
 
-def _compare_lift(res, sig, label, out, comp_outs, nvec):
+def _same_quantity(got, exp, rt=0.0):
+    """same shape and the same physical quantity (the unit it is expressed in may differ): used where the other
+    operand stands on the left, where the component operation a - v.x is expressed in a's unit and (a - v).x in v's"""
+    ga, ea = np.asarray(got.values), np.asarray(exp.values)
+    if ga.shape != ea.shape:
+        return f"shape {ga.shape} != {ea.shape}"
+    if ga.dtype.kind == "b" or ea.dtype.kind == "b":
+        return None if (ga.dtype == ea.dtype and np.array_equal(ga, ea)) else f"values {ga.tolist()!r} != {ea.tolist()!r}"
+    return compare_quantity(ga, got.unit, Q.of(ea, exp.unit), max(rt, 16 * rtol_for(ga.dtype, ea.dtype)), None)
+
+
+def _compare_lift(res, sig, label, out, comp_outs, nvec, physical=False, rt=0.0):
     """out: Outcome of the Vector call; comp_outs: Outcomes of the per-component Array calls"""
     res.count("lift-oracle")
     comp_ok = [o.ok for o in comp_outs]
@@ -141,7 +154,7 @@ def _compare_lift(res, sig, label, out, comp_outs, nvec):
         res.violate("wrong-nvec", f"{label} returned {r.nvec} components, expected {nvec}", sig=sig)
         return
     for c, o in zip("xyz", comp_outs):
-        msg = _same_component(getattr(r, c), o.value)
+        msg = _same_quantity(getattr(r, c), o.value, rt) if physical else _same_component(getattr(r, c), o.value)
         if msg:
             res.violate("lift-component-differs", f"{label}: component {c}: {msg}", sig=sig)
             return
@@ -169,15 +182,29 @@ def _lift(osy, rng, res, sig, v, c1, u1, c2, u2, dt1, dt2, nvec, shape):
         u1 = ""
         v = _vec(osy, c1, u1, "v")
     rhs = _mk_rhs(osy, rng, kind, c2, u2, nvec)
-    sig.update(op=op, rhs=kind, units=[u1, u2])
+    # a number or an Array may also stand on the LEFT (k + v, a - v, a < v ...): reflected operators of Vector
+    swapped = kind in ("float", "int", "array") and rng.random() < 0.3
+    sig.update(op=op, rhs=kind, units=[u1, u2], other_on_the_left=swapped)
     before = (fp(v), fp(rhs))
     with np.errstate(all="ignore"):
-        out = attempt(BIN[op], v, rhs)
-        comp_outs = [attempt(BIN[op], getattr(v, c), getattr(rhs, c) if kind == "vector" else rhs)
-                     for c in "xyz"[:nvec]]
+        if swapped:
+            res.tag("other-operand-on-the-left")
+            out = attempt(BIN[op], rhs, v)
+            if kind != "array" and op in ("add", "sub"):
+                # Array has no reflected + and - for bare numbers (C02 promises k*a and k/a only); the Vector has:
+                # the component oracle is the commuted operation
+                comp_outs = [attempt((lambda a, k: a + k) if op == "add" else (lambda a, k: -(a - k)), getattr(v, c), rhs)
+                             for c in "xyz"[:nvec]]
+            else:
+                comp_outs = [attempt(BIN[op], rhs, getattr(v, c)) for c in "xyz"[:nvec]]
+        else:
+            out = attempt(BIN[op], v, rhs)
+            comp_outs = [attempt(BIN[op], getattr(v, c), getattr(rhs, c) if kind == "vector" else rhs)
+                         for c in "xyz"[:nvec]]
     if (fp(v), fp(rhs)) != before:
         res.violate("operand-mutated", f"Vector {op} changed an operand", sig=sig)
-    _compare_lift(res, sig, f"Vector({nvec}) {op} {kind}", out, comp_outs, nvec)
+    _compare_lift(res, sig, f"{kind} {op} Vector({nvec})" if swapped else f"Vector({nvec}) {op} {kind}", out, comp_outs, nvec,
+                  physical=swapped, rt=32 * rtol_for(dt1, dt2))     # (either order converts one single-precision operand)
 
 
 def _npbin(osy, rng, res, sig, v, c1, u1, c2, u2, dt1, dt2, nvec, shape):
